@@ -76,7 +76,7 @@ class CompositeBasis(AbstractBasis):
                         if k == i:
                             tmp.append(self.bases[i].basis[j][0])
                         else:
-                            tmp.append(self.bases[i].basis[j][0].zeros())
+                            tmp.append(self.bases[k].basis[0][0].zeros())
                     bases.append(tuple(tmp))
 
             self._basis = bases
